@@ -13,7 +13,12 @@
      trx.layouts   = the distinct layouts returned (period, slotmask, lchan
                      mask, frames[0..period-1] = [dl_chan, dl_bid, ul_chan, ul_bid]);
      trx.walk      = (thorough) frames[fn % period] evaluated by the driver the
-                     way sched_trx.c does, per (cfg, tn, fn).
+                     way sched_trx.c does, per (cfg, tn, fn);
+     fw.channr[c+1] = [c, none_lo, none_hi, pm_lo, pm_hi]: the task mask
+                     chan_nr2mf_task_mask(c, mode) of layer1/l23_api.c (what
+                     l1ctl_rx_dm_est_req enables for channel number c), modes
+                     NEIGH_MODE_NONE / NEIGH_MODE_PM, in 16-bit halves;
+     trx.desc[k+1] = {chan_nr, link_id, flags} of the real l1sched_lchan_desc[k].
    `fn` walks one complete 51*26*8 cycle (a multiple of every modulo / period
    on either side); the invariants are evaluated in every state.
 
@@ -211,11 +216,38 @@ LayoutValidForTnBad(f) ==
         /\ q.lid >= 0 => /\ Layout(q.lid).cfg = q.cfg
                          /\ (Layout(q.lid).slotmask \div (2 ^ q.tn)) % 2 = 1)}}
 
+\* Which tasks the firmware enables for a logical channel.  A dedicated channel is
+\* named by its channel number c (C-bits c \div 8, timeslot c % 8) on both sides:
+\* the firmware turns it into a task mask (chan_nr2mf_task_mask), trxcon activates
+\* the lchans whose descriptor carries that channel number.  Of the tasks of the
+\* correspondence table exactly those must be enabled whose trxcon lchan is the
+\* one with this channel number (and whose timeslots include this one).  Tasks
+\* outside the table (neighbour measurements, PTCCH) are not judged: the statement
+\* does not talk about them.  Constant-level: evaluated once.
+DedCbits == (1..15) \cup {24, 25, 26}     \* TCH/F, TCH/H, SDCCH/4, SDCCH/8, PDCH, CBCH on SDCCH/4, CBCH on SDCCH/8
+DedChanNrs == {c \in 0..255 : (c \div 8) \in DedCbits}
+NeighModes == {"NONE", "PM"}
+MaskRow(c) == FW.channr[c + 1]
+HasBit(row, mode, b) ==
+  LET lo == row[IF mode = "NONE" THEN 2 ELSE 4]
+      hi == row[IF mode = "NONE" THEN 3 ELSE 5] IN
+  IF b < 16 THEN (lo \div (2 ^ b)) % 2 = 1 ELSE (hi \div (2 ^ (b - 16))) % 2 = 1
+DescChanNr(name) == TRX.desc[ChanId(name) + 1].chan_nr
+FwEnables(c, mode) == {r.task : r \in {q \in Corr : HasBit(MaskRow(c), mode, Task(q.task).id)}}
+TrxExpects(c) == {r.task : r \in {q \in Corr : (c % 8) \in q.tns /\ DescChanNr(q.main) = c - (c % 8)}}
+ChanNrBad ==
+  UNION {{<<c, m, "extra", t>> : t \in FwEnables(c, m) \ TrxExpects(c)}
+         \cup {<<c, m, "missing", t>> : t \in TrxExpects(c) \ FwEnables(c, m)}
+         : c \in DedChanNrs, m \in NeighModes}
+ChanNrJudged == Cardinality(DedChanNrs \X NeighModes)
+
 StartsAgree      == StartsAgreeBad(fn) = {}
 BidCyclic        == BidCyclicBad(fn) = {}
 LookupInTable    == LookupInTableBad(fn) = {}
 MaskCovers       == MaskCoversBad(fn) = {}
 LayoutValidForTn == LayoutValidForTnBad(fn) = {}
+\* (the same in every frame; written over fn because TLC refuses an invariant that is a constant FALSE)
+ChanNrTasks      == (IF fn >= 0 THEN ChanNrBad ELSE {}) = {}
 
 ----------------------------------------------------------------------------
 Init == fn = 0
@@ -225,8 +257,12 @@ Spec == Init /\ [][Next]_fn
 \* vacuity guards, printed once
 ASSUME PrintT(<<"C11-INFO", "pairs", Cardinality(Pairs), "links", Cardinality({<<p.task, p.label>> : p \in Pairs}),
                 "layouts", Len(TRX.layouts), "fwtasks", Len(FW.tasks),
-                "walks", Len(TRX.walk), "cycle", FW.cycle, TRX.cycle>>)
+                "walks", Len(TRX.walk), "channr", ChanNrJudged,
+                "channr_expected", Cardinality({c \in DedChanNrs : TrxExpects(c) # {}}),
+                "cycle", FW.cycle, TRX.cycle>>)
 ASSUME FW.cycle = Cycle /\ TRX.cycle = Cycle
+ASSUME Len(FW.channr) = 256 /\ \A c \in 0..255 : MaskRow(c)[1] = c /\ Len(MaskRow(c)) = 5
+ASSUME Len(TRX.desc) = NChans /\ FW.neigh_modes = [NONE |-> 0, PM |-> 1]
 
 \* diagnostic mode: all offending items of a clause with (up to 8 of) their frames
 Frames == 0..Cycle - 1
@@ -241,5 +277,6 @@ DiagInit ==
   /\ fn = 0
   /\ Diag("StartsAgree", StartsAgreeBad) /\ Diag("BidCyclic", BidCyclicBad) /\ Diag("LookupInTable", LookupInTableBad)
   /\ Diag("MaskCovers", MaskCoversBad) /\ Diag("LayoutValidForTn", LayoutValidForTnBad)
+  /\ PrintT(<<"C11-ALL", "ChanNrTasks", {<<it, 0, {}>> : it \in ChanNrBad}>>)     \* not per frame
 DiagNext == FALSE /\ fn' = fn
 =============================================================================
